@@ -1,6 +1,8 @@
 package eventrecorder
 
 import (
+	"crypto/x509"
+	"crypto/x509/pkix"
 	"fmt"
 	"os"
 	"path/filepath"
@@ -9,6 +11,9 @@ import (
 	"strings"
 	"testing"
 	"time"
+
+	"github.com/Cloud-Foundations/golib/pkg/log/nulllogger"
+	"golang.org/x/crypto/ssh"
 )
 
 // TestVerifC20: the real recordEvent / getEventsList / saveEvents / loadEvents /
@@ -39,8 +44,13 @@ func TestVerifC20(t *testing.T) {
 	filename := filepath.Join(dir, "events.gob")
 	sr := &EventRecorder{filename: filename, eventsMap: make(map[string]*eventsListType)}
 	base := time.Now().Unix()
+	loop := &vfLoop{dir: dir, base: base, recs: map[string]*EventRecorder{}}
 	for _, line := range io.ops {
 		f := strings.Fields(line)
+		if len(f) >= 2 && f[0] == "l" {
+			io.emit("%s", loop.op(f[1:]))
+			continue
+		}
 		if len(f) < 2 || f[0] != "r" {
 			io.emit("bad-op")
 			continue
@@ -192,4 +202,142 @@ func vfSnap(sr *EventRecorder) string {
 		out = append(out, tok)
 	}
 	return strings.Join(out, " ")
+}
+
+// vfLoop drives the REAL event loop (stream `l` of the C20 driver): recorders made by
+// newEventRecorder, fed through their public channels, queried through RequestEventsChannel like
+// the activity page does, left alone until the deferred save has run, and "restarted" by building
+// a new recorder over the same file.
+//
+//	l new <sid>                         -> new
+//	l rec <sid> <user> auth <type> <vip> | sp <hex url> | web | cert ssh|x509 <hours>   -> ok
+//	l query <sid>                       -> q {<user>=<events newest first>}   (CreateTime printed as the run's base second)
+//	l wait <ms>                         -> waited        (one shared wait for the save timers of all recorders)
+//	l restart <sid>                     -> restarted now=<unix>
+type vfLoop struct {
+	dir  string
+	base int64
+	recs map[string]*EventRecorder
+}
+
+func (l *vfLoop) file(sid string) string { return filepath.Join(l.dir, "loop-"+sid+".gob") }
+
+// settle: the loop goroutine takes its inputs from several channels; give it time to consume what
+// was just sent so that the order of the ops is the order of the effects.
+func vfSettle(n func() int) {
+	for i := 0; i < 5000 && n() > 0; i++ {
+		time.Sleep(100 * time.Microsecond)
+	}
+	time.Sleep(2 * time.Millisecond)
+}
+
+func (l *vfLoop) op(f []string) string {
+	switch {
+	case f[0] == "base" && len(f) == 1:
+		return fmt.Sprintf("base %d", l.base)
+	case f[0] == "new" && len(f) == 2:
+		os.Remove(l.file(f[1]))
+		sr, err := newEventRecorder(l.file(f[1]), nulllogger.New())
+		if err != nil {
+			return "error " + vfHex(err.Error())
+		}
+		l.recs[f[1]] = sr
+		return "new"
+	case f[0] == "rec" && len(f) >= 4:
+		sr := l.recs[f[1]]
+		if sr == nil {
+			return "bad-op"
+		}
+		user := f[2]
+		switch {
+		case f[3] == "auth" && len(f) == 6:
+			a, e1 := strconv.ParseUint(f[4], 10, 32)
+			v, e2 := strconv.ParseUint(f[5], 10, 8)
+			if e1 != nil || e2 != nil {
+				return "bad-op"
+			}
+			sr.AuthChannel <- &AuthInfo{AuthType: uint(a), Username: user, VIPAuthType: uint8(v)}
+			vfSettle(func() int { return len(sr.AuthChannel) })
+		case f[3] == "sp" && len(f) == 5:
+			url, ok := vfUnhex(f[4])
+			if !ok {
+				return "bad-op"
+			}
+			sr.ServiceProviderLoginChannel <- &SPLoginInfo{URL: url, Username: user}
+			vfSettle(func() int { return len(sr.ServiceProviderLoginChannel) })
+		case f[3] == "web" && len(f) == 4:
+			sr.WebLoginChannel <- user
+			vfSettle(func() int { return len(sr.WebLoginChannel) })
+		case f[3] == "cert" && len(f) == 6 && (f[4] == "ssh" || f[4] == "x509"):
+			hours, err := strconv.Atoi(f[5])
+			if err != nil || hours < 1 {
+				return "bad-op"
+			}
+			until := time.Now().Add(time.Duration(hours) * time.Hour)
+			if f[4] == "ssh" {
+				sr.SshCertChannel <- &ssh.Certificate{ValidPrincipals: []string{user}, ValidBefore: uint64(until.Unix())}
+				vfSettle(func() int { return len(sr.SshCertChannel) })
+			} else {
+				sr.X509CertChannel <- &x509.Certificate{Subject: pkix.Name{CommonName: user}, NotAfter: until}
+				vfSettle(func() int { return len(sr.X509CertChannel) })
+			}
+		default:
+			return "bad-op"
+		}
+		return "ok"
+	case f[0] == "query" && len(f) == 2:
+		sr := l.recs[f[1]]
+		if sr == nil {
+			return "bad-op"
+		}
+		// the exchange of eventmon/httpd showActivity
+		reply := make(chan Events, 1)
+		sr.RequestEventsChannel <- reply
+		var evs Events
+		select {
+		case evs = <-reply:
+		case <-time.After(10 * time.Second):
+			return "no-reply"
+		}
+		var users []string
+		for u := range evs.Events {
+			users = append(users, u)
+		}
+		sort.Strings(users)
+		out := []string{"q"}
+		now := time.Now().Unix()
+		for _, u := range users {
+			var l2 []string
+			for i := range evs.Events[u] {
+				e := evs.Events[u][i]
+				if int64(e.CreateTime) >= l.base-2 && int64(e.CreateTime) <= now+1 {
+					e.CreateTime = uint64(l.base)
+				}
+				l2 = append(l2, vfEv(&eventType{EventType: e}))
+			}
+			out = append(out, u+"="+vfJoin(l2))
+		}
+		return strings.Join(out, " ")
+	case f[0] == "wait" && len(f) == 2:
+		ms, err := strconv.Atoi(f[1])
+		if err != nil || ms > 20000 {
+			return "bad-op"
+		}
+		time.Sleep(time.Duration(ms) * time.Millisecond)
+		return "waited"
+	case f[0] == "restart" && len(f) == 2:
+		if l.recs[f[1]] == nil {
+			return "bad-op"
+		}
+		// the old recorder's goroutine stays behind; the generator only restarts when it has no
+		// save pending, so it never touches the file again
+		now := time.Now().Unix()
+		sr, err := newEventRecorder(l.file(f[1]), nulllogger.New())
+		if err != nil {
+			return "error " + vfHex(err.Error())
+		}
+		l.recs[f[1]] = sr
+		return fmt.Sprintf("restarted now=%d", now)
+	}
+	return "bad-op"
 }
